@@ -235,16 +235,44 @@ func runDKGLifecycle(t *testing.T, rc *RunCtx) {
 		return false
 	}
 	nEvents := 8 + ch.Pick(24, 0)
+	// A fifth of the runs start with a scripted prefix: a complete generation of the first name, then a second
+	// complete round for the same name up to (and including) a commit that has everything it needs except that
+	// the account already exists.  The random events that follow meet the state this leaves behind.
+	type forced struct{ node, kind int }
+	var script []forced
+	if ch.Pick(5, 0) == 4 {
+		for round := 0; round < 2; round++ {
+			for i := range nodes {
+				script = append(script, forced{i, 0})
+			}
+			for i := range nodes {
+				script = append(script, forced{i, 3})
+			}
+			if round == 0 {
+				for i := range nodes {
+					script = append(script, forced{i, 5})
+				}
+			} else {
+				script = append(script, forced{ch.Pick(len(nodes), 0), 5})
+			}
+		}
+		nEvents += len(script)
+		rc.Stats.Inc("life_scripted_second_generation", 1)
+	}
 	var desc []string
 	simTime := time.Duration(0)
 	coord := nodes[0].Name
 	for ev := 0; ev < nEvents && len(rc.Viol) == 0; ev++ {
 		n := nodes[ch.Pick(len(nodes), 0)]
 		a := accts[ch.Pick(len(accts), 0)]
-		r := get(n, a)
 		kind := ch.Pick(12, 0)
+		scripted := ev < len(script)
+		if scripted {
+			n, a, kind = nodes[script[ev].node], accts[0], script[ev].kind
+		}
+		r := get(n, a)
 		// Bias towards the legitimate order so that deep states are reached.
-		if kind >= 9 {
+		if kind >= 9 && !scripted {
 			switch {
 			case !r.active:
 				kind = 0
@@ -261,7 +289,7 @@ func runDKGLifecycle(t *testing.T, rc *RunCtx) {
 		switch {
 		case kind <= 2: // prepare
 			parts := nodes
-			if ch.Pick(4, 0) == 3 {
+			if !scripted && ch.Pick(4, 0) == 3 {
 				parts = nodes[:2]
 				if n == nodes[2] {
 					parts = nodes[1:]
